@@ -87,6 +87,8 @@ class Check:
                 self.known_hits.append((key, self.known[key].get('what', what)))
                 print('KNOWN-FINDING: property=%s %s [%s]' % (self.pid, self.known[key].get('what', what), key))
             return False
+        if key in [v['key'] for v in self.violations]:
+            return True     # one report per failing obligation kind
         path = self.write_replay({'property': self.pid, 'key': key, 'what': what, 'replay': replay})
         self.violations.append({'key': key, 'what': what, 'replay': path})
         print('VIOLATION property=%s replay=%s' % (self.pid, path))
